@@ -164,13 +164,17 @@ Definition mdel (k : string) (m : mmap) : mmap :=
   filter (fun kv => negb (String.eqb k (fst kv))) m.
 Definition mset (k v : string) (m : mmap) : mmap := (k, [v]) :: mdel k m.
 
+(** a time claim as it is written in the claims JSON: absent / not a JSON number
+    (a string, null, ...: MapClaims.Verify* ignores it), or the number m * 10^e *)
+Inductive jclaim := JAbsent | JNum (m e : Z).
+
 (** * Oracles: library functions outside the anchored code *)
 Record oracle := {
   o_ck       : string -> string;                       (* textproto.CanonicalMIMEHeaderKey *)
   o_re       : string -> string -> bool;               (* regexp.MatchString pattern value (false if the pattern does not compile) *)
   o_b64std   : string -> option string;                (* base64.StdEncoding.DecodeString *)
   o_jhdr     : string -> option string;                (* JWT header segment -> "alg" (None: malformed / no alg / unknown method) *)
-  o_jclaims  : string -> option (option Z * option Z * option Z); (* claims segment -> exp, iat, nbf as int64 (None: malformed) *)
+  o_jclaims  : string -> option (jclaim * jclaim * jclaim); (* claims segment -> exp, iat, nbf as written (None: malformed segment) *)
   o_b64canon : string -> option string;                (* jwt.DecodeSegment then canonical unpadded base64url re-encoding *)
   o_jmac     : string -> string -> string -> string;   (* alg, secret(hex), signing input -> canonical base64url text of the HMAC *)
   o_ptime    : string -> option (Z * string * string); (* time.ParseInLocation timeFormat: unix ns, formatTime, formatDate *)
@@ -263,6 +267,14 @@ Definition exp_ok (now : Z) (e : option Z) : bool :=
 Definition notbefore_ok (now : Z) (e : option Z) : bool :=
   match e with Some x => (x =? 0)%Z || (x <=? now)%Z | None => true end.
 
+(** the NumericDate the verifier compares: the written number truncated toward
+    zero to a whole second (Go: int64(float64)); fractions are legal (RFC 7519) *)
+Definition claim_value (c : jclaim) : option Z :=
+  match c with
+  | JAbsent => None
+  | JNum m e => Some (if (0 <=? e)%Z then (m * 10 ^ e)%Z else Z.quot m (10 ^ (- e)))
+  end.
+
 Definition jwt_sig_ok (q : quirks) (o : oracle) (c : jwt_cfg) (h cl s : string) : bool :=
   let expected := o_jmac o (j_alg c) (j_secret c) (h ++ "." ++ cl) in
   if q_jwt_sig_lenient_b64 q then
@@ -275,7 +287,7 @@ Definition jwt_token_ok (q : quirks) (o : oracle) (c : jwt_cfg) (jnow : Z) (tok 
       match o_jhdr o h, o_jclaims o cl with
       | Some alg, Some (e, i, n) =>
           is_hs alg && String.eqb alg (j_alg c) &&
-          exp_ok jnow e && notbefore_ok jnow i && notbefore_ok jnow n &&
+          exp_ok jnow (claim_value e) && notbefore_ok jnow (claim_value i) && notbefore_ok jnow (claim_value n) &&
           jwt_sig_ok q o c h cl s
       | _, _ => false
       end
@@ -540,3 +552,36 @@ Definition handle (q : quirks) (o : oracle) (cfg : config) (r : request) (now jn
     if match c_basic cfg with Some users => negb (basic_ok q o users r) | None => false end
     then Reject 401 5 else Pass
   end.
+
+(** * Basic auth users kept in etcd ([etcdUserCache]): the user set is replaced by
+      every map the syncer delivers (including the empty one) *)
+Record ecred := {
+  e_key : string; e_user : string; e_pass : string (* the clear password the stored hash stands for *);
+  e_stored : bool (* false: the entry has an empty "password" field *) }.
+
+(** [etcdCredentials.Username]: username if present, otherwise key; [kvsToReader]
+    skips entries without user or password *)
+Definition cred_user (e : ecred) : string :=
+  if String.eqb (e_user e) EmptyString then e_key e else e_user e.
+Definition users_of (l : list ecred) : list (string * string) :=
+  flat_map (fun e => if String.eqb (cred_user e) EmptyString || negb (e_stored e) then []
+                     else [(cred_user e, e_pass e)]) l.
+
+Inductive eop := EUpdate (l : list ecred) | EReq (r : request).
+
+Definition basic_cfg (users : list (string * string)) : config :=
+  {| c_headers := None; c_jwt := None; c_sig := None; c_basic := Some users |}.
+
+(** [alive] = false: the initial read of the prefix failed, the cache matches nobody and
+    watches nothing *)
+Fixpoint etcd_run (q : quirks) (o : oracle) (alive : bool) (users : list (string * string)) (ops : list eop)
+  : list outcome :=
+  match ops with
+  | [] => []
+  | EUpdate l :: t => etcd_run q o alive (if alive then users_of l else users) t
+  | EReq r :: t => handle q o (basic_cfg users) r 0 0 :: etcd_run q o alive users t
+  end.
+
+(** the user set in force after a history *)
+Definition current_users (alive : bool) (init : list (string * string)) (ops : list eop) : list (string * string) :=
+  fold_left (fun u op => match op with EUpdate l => if alive then users_of l else u | EReq _ => u end) ops init.
